@@ -54,11 +54,11 @@ def members_of(mask):
 class PyCtx:
     """A real `concepts.Context` built from an index-level table, with label maps."""
 
-    def __init__(self, tab, concepts_mod=None):
+    def __init__(self, tab, objects=None, properties=None):
         import concepts
         self.n, self.m, self.rows = tab
-        self.objects = [olabel(i) for i in range(self.n)]
-        self.properties = [plabel(j) for j in range(self.m)]
+        self.objects = list(objects) if objects is not None else [olabel(i) for i in range(self.n)]
+        self.properties = list(properties) if properties is not None else [plabel(j) for j in range(self.m)]
         self.opos = {o: i for i, o in enumerate(self.objects)}
         self.ppos = {p: j for j, p in enumerate(self.properties)}
         bools = [tuple(bool((r >> j) & 1) for j in range(self.m)) for r in self.rows]
@@ -71,13 +71,19 @@ class PyCtx:
 
     def omask(self, labels, strict=True):
         """Mask of an objects tuple; insists on context order without repeats."""
-        idx = [self.opos[o] for o in labels]
+        try:
+            idx = [self.opos[o] for o in labels]
+        except (KeyError, TypeError):
+            raise Disagreement('%r is not a tuple of object labels of the context' % (labels,))
         if strict and idx != sorted(set(idx)):
             raise Disagreement('objects tuple %r not in context order / repeated' % (labels,))
         return mask_of(set(idx))
 
     def pmask(self, labels, strict=True):
-        idx = [self.ppos[p] for p in labels]
+        try:
+            idx = [self.ppos[p] for p in labels]
+        except (KeyError, TypeError):
+            raise Disagreement('%r is not a tuple of property labels of the context' % (labels,))
         if strict and idx != sorted(set(idx)):
             raise Disagreement('properties tuple %r not in context order / repeated' % (labels,))
         return mask_of(set(idx))
@@ -185,6 +191,14 @@ class guard:
         return self
 
     def __exit__(self, et, ev, tb):
+        if et is not None and issubclass(et, Disagreement) and self.run.violation is None:
+            # raised by a canonicalisation helper (label outside the domain, tuple out of order, …)
+            what = self.what() if callable(self.what) else self.what
+            reqs = self.requests() if callable(self.requests) else self.requests
+            self.run.violation = {'property': self.run.pid, 'what': '%s: %s' % (what, ev), 'implementation': str(ev),
+                                  'model': self.model, 'requests': list(reqs), 'seed': self.run.seed, 'tier': self.run.tier,
+                                  'case_index': self.run.evaluations, 'extra': self.extra}
+            return False
         if et is None or issubclass(et, (Disagreement, ApiBroken, KeyboardInterrupt, SystemExit)):
             return False
         import traceback as _tb
